@@ -111,7 +111,11 @@ class Ctx:
         self.quick = tier == 'quick'
 
     def n(self, quick, thorough):
-        return quick if self.quick else thorough
+        if self.quick:
+            return quick
+        # SV_THOROUGH_SCALE < 1 shrinks the thorough tier (case counts and time budgets) for smoke runs
+        scale = float(os.environ.get('SV_THOROUGH_SCALE', '1'))
+        return thorough if scale == 1 else max(quick, int(thorough * scale))
 
 
 class Part:
